@@ -43,6 +43,7 @@ type pResult struct {
 	Partial  int      `json:"partial_tails"`
 	ErrCount uint64   `json:"errcount"`
 	Hung     bool     `json:"hung,omitempty"`
+	Infra    string   `json:"infra,omitempty"` // the driver could not set the scenario up (not a verdict)
 }
 
 // messages with everything a printf format could choke on, and multi-kilobyte bodies
@@ -57,6 +58,8 @@ func pMessage(k int, big bool) []byte {
 	}
 	return []byte(b)
 }
+
+type pInfra string
 
 type pSink struct {
 	mu    sync.Mutex
@@ -145,25 +148,46 @@ func (s *pSink) stop() {
 	s.mu.Unlock()
 }
 
+// pStart (re)starts the sink; the port may be briefly taken by somebody's outgoing connection
+func pStart(s *pSink) error {
+	var err error
+	for k := 0; k < 200; k++ {
+		if err = s.start(); err == nil {
+			return nil
+		}
+		time.Sleep(10 * time.Millisecond)
+	}
+	return err
+}
+
 func pRun(sc pScript) (res pResult) {
 	res.ID = sc.ID
+	defer func() {
+		if p := recover(); p != nil {
+			if e, ok := p.(pInfra); ok {
+				res.Infra = string(e)
+				return
+			}
+			panic(p)
+		}
+	}()
 	// a free loopback port, kept for the whole script so that the sink can come back on it
 	l, err := net.Listen("tcp", "127.0.0.1:0")
 	if err != nil {
-		panic(err)
+		panic(pInfra(err.Error()))
 	}
 	addr := l.Addr().String()
 	l.Close()
 	sink := &pSink{addr: addr, proto: sc.Proto}
-	if err := sink.start(); err != nil {
-		panic(err)
+	if err := pStart(sink); err != nil {
+		panic(pInfra(err.Error()))
 	}
 	defer sink.stop()
 	rs := &RawSocket{config: RawSocketConfig{URL: addr, Protocol: sc.Proto, MaxRetry: sc.MaxRetry},
 		logger: log.New(ioutil.Discard, "", 0)}
 	rs.connection, err = net.Dial(sc.Proto, addr) // what setup() does after loading the configuration
 	if err != nil {
-		panic(err)
+		panic(pInfra(err.Error()))
 	}
 	time.Sleep(3 * time.Millisecond)
 	ch := make(chan []byte)
@@ -182,8 +206,8 @@ func pRun(sc pScript) (res pResult) {
 				sink.stop()
 				res.Events = append(res.Events, pEvent{Ev: "die"})
 			} else {
-				if err := sink.start(); err != nil {
-					panic(err)
+				if err := pStart(sink); err != nil {
+					panic(pInfra(err.Error()))
 				}
 				res.Events = append(res.Events, pEvent{Ev: "restart"})
 			}
@@ -207,7 +231,7 @@ func pRun(sc pScript) (res pResult) {
 			sink.stop()
 			res.Events = append(res.Events, pEvent{Ev: "die"})
 		} else {
-			sink.start()
+			pStart(sink)
 			res.Events = append(res.Events, pEvent{Ev: "restart"})
 		}
 		next++
